@@ -32,7 +32,7 @@ pub fn d_dump_units() {
         }
         for a in names.iter() {
             for b in names.iter() {
-                for amount in ["0", "1", "7.5"].iter() {
+                for amount in ["0", "1", "7.5", "30000000000000000000"].iter() {
                     let written = if *comma { amount.replace('.', ",") } else { amount.to_string() };
                     let line = alloc::format!("{} {} to {}", written, a, b);
                     let r = calc.execute("en", line);
@@ -158,3 +158,26 @@ pub fn m_replay_print_callers() {
 }
 #[cfg(kani)]
 pub fn m_replay_print_callers() {}
+
+/// a whole or fractional amount of any size natively: (amount): inch -> mm is the amount times 25.4 (relative 1e-12)
+#[cfg(not(kani))]
+pub fn m_replay_unit_amount() {
+    let x0: f64 = vany();
+    vassume(x0.is_finite());
+    let mut calc = crate::SmartCalc::default();
+    calc.set_decimal_seperator(".".to_string());
+    calc.set_thousand_separator(",".to_string());
+    let cfg = crate::smartcalc::verif_k_local::config_of(&calc);
+    let unit = |name: &str| -> Rc<crate::config::DynamicType> {
+        for (_, g) in cfg.types.iter() { for (_, t) in g.iter() { if t.names.iter().any(|n| n == name) { return t.clone(); } } }
+        panic!("unit {}", name)
+    };
+    for x in [x0, x0.abs(), x0.abs().floor(), x0.abs().floor() + 0.5].iter() {
+        if !x.is_finite() || x.abs() > 1e30 { continue; }
+        let got = DynamicTypeItem::convert(cfg, *x, unit("inch"), "mm".to_string()).expect("inch to mm").0;
+        let want = *x * 25.4;
+        assert!((got - want).abs() <= 1e-12 * want.abs());
+    }
+}
+#[cfg(kani)]
+pub fn m_replay_unit_amount() {}
